@@ -18,14 +18,14 @@ PRIO = ["KCompositeMutated", "KSentGateable", "KLinger", "KLost", "KDup", "KOrde
 RELEVANT = {
     "C11": lambda k, op: k in ("KRes", "KComp", "KCompose", "KSent", "KGated", "KDup", "KOrder", "KLost", "KIdent", "KEmptyId",
                                "KSentGateable", "KIndex", "KConc", "KCompositeMutated") or (k == "KLinger" and op == 7),
-    "C17": lambda k, op: k in ("KLinger", "KGated", "KSent", "KIndex") or (k == "KRes" and op in (1, 2, 4, 5, 7)) or (k in ("KDup", "KLost") and op == 7),
+    "C17": lambda k, op: k in ("KLinger", "KGated", "KSent", "KCompose", "KIndex") or (k == "KRes" and op in (1, 2, 4, 5, 7)) or (k in ("KDup", "KLost") and op == 7),
 }
 
 ARGS = {
-    ("C11", "quick"): ["-modes", "bfs,random,blocked,conc", "-bfs-depth", "5", "-bfs-sym", "-bfs-nosym-depth", "3", "-random", "300", "-random-len", "60", "-conc", "12"],
-    ("C11", "thorough"): ["-modes", "bfs,random,blocked,conc", "-bfs-depth", "7", "-bfs-sym", "-bfs-nosym-depth", "5", "-bfs-full-configs", "-random", "4000", "-random-len", "200", "-conc", "400"],
-    ("C17", "quick"): ["-modes", "bfs,random,blocked", "-bfs-depth", "5", "-bfs-sym", "-bfs-nosym-depth", "3", "-random", "400", "-random-len", "60", "-random-ids", "5"],
-    ("C17", "thorough"): ["-modes", "bfs,random,blocked,conc", "-bfs-depth", "7", "-bfs-sym", "-bfs-nosym-depth", "5", "-bfs-full-configs", "-random", "4000", "-random-len", "200", "-conc", "100"],
+    ("C11", "quick"): ["-modes", "bfs,random,blocked,faults,conc", "-bfs-depth", "5", "-bfs-sym", "-bfs-nosym-depth", "3", "-random", "300", "-random-len", "60", "-conc", "12"],
+    ("C11", "thorough"): ["-modes", "bfs,random,blocked,faults,conc", "-bfs-depth", "7", "-bfs-sym", "-bfs-nosym-depth", "5", "-bfs-full-configs", "-random", "4000", "-random-len", "200", "-conc", "400"],
+    ("C17", "quick"): ["-modes", "bfs,random,blocked,faults", "-bfs-depth", "5", "-bfs-sym", "-bfs-nosym-depth", "3", "-random", "400", "-random-len", "60", "-random-ids", "5"],
+    ("C17", "thorough"): ["-modes", "bfs,random,blocked,faults,conc", "-bfs-depth", "7", "-bfs-sym", "-bfs-nosym-depth", "5", "-bfs-full-configs", "-random", "4000", "-random-len", "200", "-conc", "100"],
 }
 
 ASSUMPTIONS = [
